@@ -10,6 +10,8 @@ import DeapModel.Lemmas.C16Examples
 import DeapModel.Lemmas.C16Namespace
 import DeapModel.Lemmas.C16Gp
 import DeapModel.Lemmas.C16Init
+import DeapModel.Core.HeapDerive
+import DeapModel.Lemmas.C16Derive
 
 namespace C16
 open Heap
@@ -877,5 +879,209 @@ example : ((initRepeatCls Ex.ct 2 (fun k => (k + 1, Val.atom (Int.ofNat k))) 2 7
   decide
 
 end InitFns
+
+/-! ### Creator classes derived from creator classes (`Core/HeapDerive.lean`) -/
+
+/-- **Fresh attributes along the creator-MRO.**  Two consecutive instantiations of a creator class `d` that is
+derived (through any number of levels) from creator classes: for every per-instance attribute declared by ANY
+class on the creator-MRO of `d` (`mroDecl`: the class's own declarations, its created parent's, … — each
+`init_type` runs its own closure dict and then `base.__init__`), each instance holds under that name a reference
+to an object allocated by ITS OWN constructor call (never an older object, never the other instance's, never
+something on the class); nothing reachable from an attribute of the first instance is reachable from an
+attribute of the second; and what neither instance holds itself is looked up on the classes of the MRO, the same
+for both.  (Guard as in `fresh_attrs`: the root `__init__` of a `ConstrainedFitness` sets
+`constraint_violation = None` over a declaration of that very name.) -/
+theorem derived_create_fresh_attrs (ct : ClassTable) (dt : DTable) (objs : Oid → Option Obj) (next : Nat)
+    (memo : List (Oid × Oid)) (hcl : Closed objs next) (d : Nat) (dc : DClass) (hdc : dt[d]? = some dc)
+    (items₁ items₂ : List Val) (st1 st2 : State) (x1 x2 : Oid)
+    (h1 : createD ct dt ⟨objs, next, memo⟩ d items₁ = some (st1, x1))
+    (h2 : createD ct dt st1 d items₂ = some (st2, x2)) :
+    ∃ o1 o2, st2.objs x1 = some o1 ∧ st2.objs x2 = some o2 ∧ o1.items = items₁ ∧ o2.items = items₂ ∧
+      (∀ p ∈ mroDecl dt d, (dc.kind = .cfitness → p.1 ≠ cvName) →
+          ∃ y1 y2, lookup p.1 o1.attrs = some (.ref y1) ∧
+          lookup p.1 o2.attrs = some (.ref y2) ∧ next ≤ y1 ∧ y1 < st1.next ∧ st1.next ≤ y2 ∧
+          (st2.objs y1).isSome = true ∧ (st2.objs y2).isSome = true) ∧
+      (∀ k1 v1 k2 v2, lookup k1 o1.attrs = some v1 → lookup k2 o2.attrs = some v2 →
+          ∀ y, Reach st2.objs v1 y → ¬ Reach st2.objs v2 y) ∧
+      (∀ k, lookup k o1.attrs = none → lookup k o2.attrs = none →
+          getattrD ct dt st2.objs x1 k = getattrD ct dt st2.objs x2 k) := by
+  obtain ⟨dc1, sb, sets1, hdc1, hx1e, rfl, E1, S1⟩ :=
+    createD_of_eq ct dt objs next memo d items₁ st1 x1 hcl.bound h1
+  subst x1
+  rw [hdc] at hdc1
+  cases hdc1
+  have A1 := S1.setAll
+  obtain ⟨o1, ho1⟩ : ∃ o1 : Obj, o1 =
+    ⟨clsOfD ct d, items₁, dictUpdate (setAll sets1 []) (baseInitAttrs dc.kind), dc.kind != .node⟩ := ⟨_, rfl⟩
+  rw [← ho1] at h2
+  have hb1 : ∀ y, sb.next ≤ y → define sb.objs next o1 y = none :=
+    Bounded.reserve_define (st := ⟨objs, next, memo⟩) E1
+  obtain ⟨dc2, sc, sets2, hdc2, hx2e, rfl, E2, S2⟩ :=
+    createD_of_eq ct dt _ sb.next sb.memo d items₂ st2 x2 hb1 h2
+  subst x2
+  rw [hdc] at hdc2
+  cases hdc2
+  have A2 := S2.setAll
+  obtain ⟨o2, ho2⟩ : ∃ o2 : Obj, o2 =
+    ⟨clsOfD ct d, items₂, dictUpdate (setAll sets2 []) (baseInitAttrs dc.kind), dc.kind != .node⟩ := ⟨_, rfl⟩
+  rw [← ho2]
+  have hlt1 : next + 1 ≤ sb.next := E1.le
+  have hlt2 : sb.next + 1 ≤ sc.next := E2.le
+  have F1 : ∀ x, x < sb.next → define sc.objs sb.next o2 x = define sb.objs next o1 x := by
+    intro x hx
+    rw [define_ne _ _ _ (Nat.ne_of_lt hx)]
+    exact E2.old x (Nat.lt_succ_of_lt hx)
+  have hx1 : define sc.objs sb.next o2 next = some o1 := by
+    rw [F1 next (by omega), define_same]
+  have hx2 : define sc.objs sb.next o2 sb.next = some o2 := define_same _ _ _
+  have R1 : ∀ (v : Val) (y : Nat), Reach (define sc.objs sb.next o2) v y →
+      (∀ x : Nat, v = Val.ref x → next + 1 ≤ x ∧ x < sb.next) → next + 1 ≤ y ∧ y < sb.next := by
+    intro v y hr
+    refine reach_closed (fun y : Nat => next + 1 ≤ y ∧ y < sb.next) ?_ hr
+    intro x o hx ho y hy
+    rw [F1 x hx.2, define_ne _ _ _ (Nat.ne_of_gt hx.1)] at ho
+    have := E1.closed x o hx.1 ho _ hy
+    exact ⟨this.1, this.2.1⟩
+  have R2 : ∀ (v : Val) (y : Nat), Reach (define sc.objs sb.next o2) v y →
+      (∀ x, v = Val.ref x → sb.next + 1 ≤ x) → sb.next + 1 ≤ y := by
+    intro v y hr
+    refine reach_closed (fun y => sb.next + 1 ≤ y) ?_ hr
+    intro x o hx ho y hy
+    rw [define_ne _ _ _ (Nat.ne_of_gt hx)] at ho
+    exact (E2.closed x o hx ho _ hy).1
+  have L : ∀ (attrs : List (Name × Val)) (k : Name) (v : Val),
+      lookup k (dictUpdate attrs (baseInitAttrs dc.kind)) = some v →
+      (∃ a, v = .atom a) ∨ lookup k attrs = some v := by
+    intro attrs k v h
+    rw [lookup_dictUpdate] at h
+    cases hb : lookup k (baseInitAttrs dc.kind) with
+    | none => rw [hb] at h; exact Or.inr h
+    | some w =>
+      rw [hb] at h
+      cases h
+      exact Or.inl ⟨_, (lookup_baseInitAttrs hb).2.2⟩
+  have ha1 : o1.attrs = dictUpdate (setAll sets1 []) (baseInitAttrs dc.kind) := by rw [ho1]
+  have ha2 : o2.attrs = dictUpdate (setAll sets2 []) (baseInitAttrs dc.kind) := by rw [ho2]
+  -- a declared name: the value set last under it, a reference into the slots of the call
+  have D : ∀ (sets : List (Name × Val)) (lo hi : Nat) (ob : Oid → Option Obj),
+      AttrsIn ob lo hi (mroDecl dt d) sets → ∀ p ∈ mroDecl dt d,
+      ∃ y, lookup p.1 (setAll sets []) = some (.ref y) ∧ lo ≤ y ∧ y < hi ∧ (ob y).isSome = true := by
+    intro sets lo hi ob hS p hp
+    have hmem : p.1 ∈ sets.map (·.1) := by
+      rw [hS.1]
+      exact List.mem_map.2 ⟨p, hp, rfl⟩
+    obtain ⟨v, hv⟩ := lastVal_isSome_of_mem_keys hmem
+    obtain ⟨y, hy, h1, h2, h3⟩ := hS.2 _ (lastVal_mem hv)
+    refine ⟨y, ?_, h1, h2, h3⟩
+    rw [lookup_setAll, hv]
+    exact congrArg some hy
+  refine ⟨o1, o2, hx1, hx2, by rw [ho1], by rw [ho2], ?_, ?_, ?_⟩
+  · intro p hp hguard
+    obtain ⟨y1, hl1, h11, h12, h13⟩ := D _ _ _ _ S1 p hp
+    obtain ⟨y2, hl2, h21, h22, h23⟩ := D _ _ _ _ S2 p hp
+    have hnb : lookup p.1 (baseInitAttrs dc.kind) = none := by
+      cases hb : lookup p.1 (baseInitAttrs dc.kind) with
+      | none => rfl
+      | some w =>
+        obtain ⟨hk, hn, _⟩ := lookup_baseInitAttrs hb
+        exact absurd hn (hguard hk)
+    refine ⟨y1, y2, ?_, ?_, by omega, h12, Nat.le_of_succ_le h21, ?_, ?_⟩
+    · rw [ha1, lookup_dictUpdate, hnb]; exact hl1
+    · rw [ha2, lookup_dictUpdate, hnb]; exact hl2
+    · show (define sc.objs sb.next o2 y1).isSome = true
+      rw [F1 y1 h12]
+      exact define_isSome _ _ _ h13
+    · show (define sc.objs sb.next o2 y2).isSome = true
+      exact define_isSome _ _ _ h23
+  · intro k1 v1 k2 v2 hl1 hl2 y hr1 hr2
+    rw [ha1] at hl1
+    rw [ha2] at hl2
+    rcases L _ _ _ hl1 with ⟨a, rfl⟩ | hl1
+    · cases hr1
+    rcases L _ _ _ hl2 with ⟨a, rfl⟩ | hl2
+    · cases hr2
+    obtain ⟨y1, rfl, h11, h12⟩ := A1.lookup_ref hl1
+    obtain ⟨y2, rfl, h21, _⟩ := A2.lookup_ref hl2
+    have a1 := R1 _ _ hr1 (fun x hx => by cases hx; exact ⟨h11, h12⟩)
+    have a2 := R2 _ _ hr2 (fun x hx => by cases hx; exact h21)
+    omega
+  · intro k hk1 hk2
+    show getattrD ct dt (define sc.objs sb.next o2) next k = getattrD ct dt (define sc.objs sb.next o2) sb.next k
+    have hc1 : o1.cls = clsOfD ct d := by rw [ho1]
+    have hc2 : o2.cls = clsOfD ct d := by rw [ho2]
+    simp only [getattrD, hx1, hx2, hk1, hk2, hc1, hc2]
+
+/-- The chain of the seeded counter-example: `Fit` (class 0 of `ct`), `Ind = create(list, fitness=Fit, strategy=list)`,
+`Sub = create(Ind, bound=9)` (declares nothing), `Sub2 = create(Sub, fitness=Fit, memo=list)` (redeclares one name,
+adds one). -/
+def exCt : ClassTable := [⟨.fitness, [], []⟩, ⟨.plain, [], []⟩]
+def exDt : DTable :=
+  [⟨none, .plain, [(1, 0), (2, 1)], []⟩, ⟨some 0, .plain, [], [(9, .atom 9)]⟩, ⟨some 1, .plain, [(1, 0), (3, 1)], []⟩]
+
+/-- Instance of the hypotheses of `derived_create_fresh_attrs` (class `Sub`, which declares nothing itself). -/
+example : ∃ dc st1 x1 st2 x2, Closed (fun _ => none) 0 ∧ exDt[1]? = some dc ∧
+    createD exCt exDt ⟨fun _ => none, 0, []⟩ 1 [.atom 1] = some (st1, x1) ∧
+    createD exCt exDt st1 1 [.atom 2] = some (st2, x2) :=
+  ⟨_, _, _, _, _, ⟨fun _ _ => rfl, fun _ _ h => by cases h⟩, rfl, rfl, rfl⟩
+
+/-- The parent's declarations reach the instance of the child that declares nothing … -/
+example : mroDecl exDt 1 = [(1, 0), (2, 1)] := by decide
+/-- … an instance of `Sub` holds its own `fitness` (oid 1) and `strategy` (oid 2), the next one oids 4 and 5 … -/
+example : ((createD exCt exDt ⟨fun _ => none, 0, []⟩ 1 [.atom 1]).bind (fun r =>
+    (createD exCt exDt r.1 1 [.atom 2]).map (fun r2 =>
+      ((r2.1.objs 0).map (·.attrs), (r2.1.objs 3).map (·.attrs))))) =
+    some (some [(1, .ref 1), (2, .ref 2)], some [(1, .ref 4), (2, .ref 5)]) := by decide
+/-- … and for a redeclared name (`Sub2.fitness`) the value set LAST — the root-most class's — stays, in the
+position of the first `setattr`; the object set first (oid 1) is garbage. -/
+example : ((createD exCt exDt ⟨fun _ => none, 0, []⟩ 2 []).bind (fun r => (r.1.objs 0).map (·.attrs))) =
+    some [(1, .ref 3), (3, .ref 2), (2, .ref 4)] := by decide
+example : effClass exDt 2 1 = some 0 ∧ effDictInst (mroDecl exDt 2) = [(1, 0), (3, 1), (2, 1)] := by decide
+
+/-- **Which declaration an instance keeps.**  If the name is declared on the creator-MRO of `d`, a new instance of
+`d` holds under it a new object of the class given by the declaration executed LAST in the `__init__` chain
+(`effClass`): the class's own loop runs first and `base.__init__` afterwards, so for a name declared on several
+levels it is the declaration of the class NEAREST THE ROOT that the instance keeps — the model follows the code. -/
+theorem derived_attr_class (ct : ClassTable) (dt : DTable) (objs : Oid → Option Obj) (next : Nat)
+    (memo : List (Oid × Oid)) (hcl : Closed objs next) (d : Nat) (dc : DClass) (hdc : dt[d]? = some dc)
+    (items : List Val) (st1 : State) (x1 : Oid)
+    (h1 : createD ct dt ⟨objs, next, memo⟩ d items = some (st1, x1))
+    (name : Name) (c : ClsId) (hc : effClass dt d name = some c)
+    (hguard : dc.kind = .cfitness → name ≠ cvName) :
+    ∃ o1 y oy, st1.objs x1 = some o1 ∧ lookup name o1.attrs = some (.ref y) ∧ next < y ∧
+      st1.objs y = some oy ∧ oy.cls = c := by
+  unfold createD at h1
+  rw [hdc] at h1
+  simp only at h1
+  split at h1
+  · cases h1
+  · rename_i sb sets hrun
+    cases h1
+    have hba : Bounded ⟨objs, next + 1, memo⟩ := fun y hy => hcl.bound y (Nat.le_of_succ_le hy)
+    obtain ⟨_, hA⟩ := instAttrs_of_eq_any ct _ _ _ _ hba hrun
+    rw [instAttrs_eq] at hrun
+    have F := instLoop_cls ct ct.length _ _ _ _ hba hrun
+    obtain ⟨y, oy, hv, hoy, hcls⟩ := lastVal_lastDecl F hc
+    obtain ⟨y', hy', hlo, _, _⟩ := hA.2 _ (lastVal_mem hv)
+    cases hy'
+    have hnb : lookup name (baseInitAttrs dc.kind) = none := by
+      cases hb : lookup name (baseInitAttrs dc.kind) with
+      | none => rfl
+      | some w =>
+        obtain ⟨hk, hn, _⟩ := lookup_baseInitAttrs hb
+        exact absurd hn (hguard hk)
+    refine ⟨_, y, oy, define_same _ _ _, ?_, hlo, ?_, hcls⟩
+    · show lookup name (dictUpdate (setAll sets []) (baseInitAttrs dc.kind)) = some (.ref y)
+      rw [lookup_dictUpdate, hnb]
+      show lookup name (setAll sets []) = some (.ref y)
+      rw [lookup_setAll, hv]
+    · show define sb.objs next _ y = some oy
+      rw [define_ne _ _ _ (Nat.ne_of_gt hlo)]
+      exact hoy
+
+/-- Instance of the hypotheses: `Sub2` redeclares `fitness` (name 1): the effective class is the root's. -/
+example : ∃ dc st1 x1, Closed (fun _ => none) 0 ∧ exDt[2]? = some dc ∧
+    createD exCt exDt ⟨fun _ => none, 0, []⟩ 2 [] = some (st1, x1) ∧ effClass exDt 2 1 = some 0 ∧
+    (dc.kind = .cfitness → (1 : Name) ≠ cvName) :=
+  ⟨_, _, _, ⟨fun _ _ => rfl, fun _ _ h => by cases h⟩, rfl, rfl, by decide, fun _ => by decide⟩
 
 end C16
